@@ -704,6 +704,126 @@ theorem delete_commit_exact {k k1 k2 : K} {th : Tid} {t dv0 : Nat} {op : DelOp} 
       exact hnone _ hx
     rw [this, List.nil_append]
 
+/-- what a scan of table `t` returns once the rows named by the handlers `hs` are gone -/
+def scanMinus (k : K) (t : Nat) (hs : List (Key × Nat)) : Option (List Int) :=
+  match scan? k.pool (k.status k.epoch) (tableKeys (k.status k.epoch) t) with
+  | some l => some ((l.filter (fun x =>
+      !((hs.filter (fun h => h.1 == x.1)).map (·.2)).contains x.2.1)).map (fun x => x.2.2))
+  | none => none
+
+/-- **DELETE without `FreshSnapshot`.**  Whatever snapshot the handlers `hs` of table `t` were
+collected from: the DELETE's commit (one delete vector per touched row-set) removes from table
+`t` exactly the rows at the handlers' positions and changes no other table.  Since /repo a61a0a6
+/ 16ca0ec the code commits only when every handler names a row that is live in the snapshot
+pinned under the table lock (`handlersGone = false`, the guard of the model's `commitBegin`), so
+every acknowledged deleted row is a row that was there and is gone — no hypothesis on the
+schedule. -/
+theorem delete_commit_exact_handlers {k k1 k2 : K} {th : Tid} {t dv0 : Nat}
+    {hs : List (Key × Nat)} (hkeys : ∀ h ∈ hs, h.1.1 = t)
+    (hA : kCommitA k th (dvOps dv0 hs (sortKeys (dedupKeys (hs.map (·.1))))) = some k1)
+    (hB : kCommitB k1 th = some k2) :
+    curRows k2 t = scanMinus k t hs ∧ ∀ t', t' ≠ t → curRows k2 t' = curRows k t' := by
+  obtain ⟨snap', hsnap, _, he, hst, hpool⟩ := commit_result hA hB
+  rw [applyOps_dvOps] at hsnap
+  cases hsnap
+  replace hst : k2.status (k.epoch + 1) = afterDvs (k.status k.epoch) hs dv0 := hst
+  rw [poolAdds_dvOps, List.nil_append] at hpool
+  have hdead : ∀ key j, (deadPos (afterDvs (k.status k.epoch) hs dv0) key).contains j
+      = (((hs.filter (fun h => h.1 == key)).map (·.2)) ++ deadPos (k.status k.epoch) key).contains j := by
+    intro key j
+    simp only [List.contains_eq_mem, deadPos_eq, List.mem_append, mem_positions]
+    apply decide_eq_decide.mpr
+    show j ∈ deadOf (pushDvs hs dv0 (sortKeys (dedupKeys (hs.map (·.1)))) (k.status k.epoch).dvs) key ↔ _
+    rw [mem_deadOf_push]
+    constructor
+    · rintro (h | ⟨_, h⟩)
+      · exact Or.inr h
+      · exact Or.inl h
+    · rintro (h | h)
+      · refine Or.inr ⟨?_, h⟩
+        rw [mem_sortKeys, mem_dedupKeys]
+        exact List.mem_map.mpr ⟨(key, j), h, rfl⟩
+      · exact Or.inl h
+  have hlive : ∀ key rows, liveFrom 0 (deadPos (afterDvs (k.status k.epoch) hs dv0) key) rows
+      = (liveFrom 0 (deadPos (k.status k.epoch) key) rows).filter
+          (fun q => !((hs.filter (fun h => h.1 == key)).map (·.2)).contains q.1) := by
+    intro key rows
+    rw [liveFrom_congr (hdead key) 0 rows]
+    exact liveFrom_extra_pos 0 rows
+  constructor
+  · simp only [curRows, he, hst, hpool, rowsAt?, scanMinus]
+    have htk : tableKeys (afterDvs (k.status k.epoch) hs dv0) t
+        = tableKeys (k.status k.epoch) t := rfl
+    rw [htk]
+    cases hl : scan? k.pool (k.status k.epoch) (tableKeys (k.status k.epoch) t) with
+    | none =>
+        -- a row-set of the table is missing from the pool: both sides fail alike
+        have : scan? k.pool (afterDvs (k.status k.epoch) hs dv0) (tableKeys (k.status k.epoch) t) = none := by
+          clear htk hst
+          generalize tableKeys (k.status k.epoch) t = keys at hl
+          induction keys with
+          | nil => simp [scan?] at hl
+          | cons key r ih =>
+              simp only [scan?] at hl ⊢
+              cases hp : lookupPool k.pool key with
+              | none => rfl
+              | some rows =>
+                  cases hr : scan? k.pool (k.status k.epoch) r with
+                  | none => simp only [ih hr]
+                  | some rest => simp [hp, hr] at hl
+        simp only [this]
+    | some l =>
+        have hf := scan?_filter_pos (pool := k.pool) (s := k.status k.epoch)
+          (s' := afterDvs (k.status k.epoch) hs dv0)
+          (fun key => (hs.filter (fun h => h.1 == key)).map (·.2))
+          (keys := tableKeys (k.status k.epoch) t) (l := l)
+          (fun key _ rows _ => hlive key rows) hl
+        simp only [hf]
+  · intro t' hne
+    simp only [curRows, he, hst, hpool, rowsAt?]
+    have htk : tableKeys (afterDvs (k.status k.epoch) hs dv0) t'
+        = tableKeys (k.status k.epoch) t' := rfl
+    rw [htk, scan?_live_congr]
+    intro key hkey rows _
+    rw [hlive key rows]
+    have hkt : key.1 = t' := by
+      have := (List.mem_filter.mp hkey).2
+      simpa using this
+    have : (hs.filter (fun h => h.1 == key)).map (·.2) = [] := by
+      apply List.map_eq_nil_iff.mpr
+      apply List.filter_eq_nil_iff.mpr
+      intro x hx hxe
+      simp only [beq_iff_eq] at hxe
+      exact hne (hkt.symm.trans (hxe ▸ hkeys x hx))
+    rw [this]
+    simp
+
+-- non-vacuity: the handlers of the repaired implementation's own DELETE in the regression
+-- schedule (row 1 of row-set 0_0) — the table loses exactly that row
+example : scanMinus (stateOf (wSetup ++ wReadPin)).k 0 [((0, 0), 0)] = some [3, 2] := by decide
+
+/-- The model's DELETE (as the repaired code: `commit_inner`) prepares its changeset only when
+every handler names a row-set of the snapshot it pinned under the table lock and a row that is
+not yet deleted there. -/
+theorem delete_validated {s s' : Sys} {th : Tid} {n : Nat} {op : DelOp} {c : Int}
+    (hth : (th.2 == 0) = false) (hcmd : (getTh s (parent th)).cmd = some (.delete n op c))
+    (hmode : (getTh s th).mode = .upd) (h : stepCommitBegin s th = some s') :
+    ∃ hs, (getTh s (parent th)).mail = some hs
+      ∧ handlersGone (s.k.status (getTh s th).snapE) hs = false := by
+  simp only [stepCommitBegin, hth, hcmd, hmode] at h
+  split at h
+  · cases h
+  simp only [Bool.false_eq_true, if_false] at h
+  split at h
+  · rename_i hs hmail
+    split at h
+    · cases h
+    · rename_i hc
+      refine ⟨hs, hmail, ?_⟩
+      simp only [Bool.or_eq_true, not_or, Bool.not_eq_true] at hc
+      exact hc.2
+  · cases h
+
 /-! ### a compaction whose output is empty (every selected row is deleted) -/
 
 theorem applyOps_dels_other {t t' : Nat} (hne : t' ≠ t) : ∀ (dels : List Key) {s s' : Snap},
